@@ -144,8 +144,27 @@ func toStmt(s *S, depth int) *yg.Stmt {
 
 var locRe = regexp.MustCompile(`in\.yang:(\d+):(\d+)`)
 
-// parseText parses and returns (accepted, error text, locations named in the error).
+// parseText parses and returns (accepted, error text, locations named in the error).  The same text with CRLF line
+// ends must get the same verdict and name the same line:column positions (a line break is one line break).
 func parseText(text string) (bool, string, [][2]int, string) {
+	ok, msg, locs, fatal := parseText1(text)
+	if fatal != "" || !strings.Contains(text, "\n") || strings.Contains(text, "\r") {
+		return ok, msg, locs, fatal
+	}
+	ok2, msg2, locs2, fatal2 := parseText1(strings.ReplaceAll(text, "\n", "\r\n"))
+	if fatal2 != "" {
+		return ok, msg, locs, "with CRLF line ends: " + fatal2
+	}
+	if ok2 != ok {
+		return ok, msg, locs, fmt.Sprintf("verdict changes with CRLF line ends: LF %v (%s), CRLF %v (%s)", ok, msg, ok2, msg2)
+	}
+	if fmt.Sprint(locs) != fmt.Sprint(locs2) {
+		return ok, msg, locs, fmt.Sprintf("the error names other positions with CRLF line ends: LF %v (%s), CRLF %v (%s)", locs, msg, locs2, msg2)
+	}
+	return ok, msg, locs, fatal
+}
+
+func parseText1(text string) (bool, string, [][2]int, string) {
 	var err error
 	var pan any
 	done := fw.WithTimeout(20, func() {
